@@ -39,6 +39,9 @@ CTYPES = {
     'other-type': 'text/plain',
     'other-type-charset': 'application/json; charset=utf-8',
     'absent': None,
+    'form-extended': FORM + '-v2',
+    'form-suffix': FORM + '+json; charset=utf-8',
+    'form-x': FORM + 'x',
     'case-variant': 'Application/X-WWW-Form-Urlencoded',
     'latin1': FORM + '; charset=latin1',
 }
@@ -334,8 +337,8 @@ def describe(f):
 
 def bounds(tier):
     return ('URL and body parameter lists of <= 2 parameters each over the names {a, b} (all clash patterns) with one symbolic value byte '
-            '(any visible ASCII, hence malformed escapes and +), both option values, 10 content-type spellings (exact, three UTF-8 charset labels, '
-            'other parameters, unknown charset, two other media types, absent); arbitrary body byte strings of length <= %d (all 256 values: '
+            '(any visible ASCII, hence malformed escapes and +), both option values, 13 content-type spellings (exact, three UTF-8 charset labels, '
+            'other parameters, unknown charset, two other media types, three media types that merely start with the form type, absent); arbitrary body byte strings of length <= %d (all 256 values: '
             'invalid UTF-8, separators, escapes)' % (2 if tier == 'quick' else 3))
 
 
